@@ -73,8 +73,11 @@ static void stub_randbytes(int tag, void* result, size_t n) {
 static uint64_t stub_time(int tag) {
     STUB_ENTER;
     pv_event* e = new_event(w, PV_EV_TIME, tag);
-    if (e) e->a = w->time_value;
     uint64_t v = w->time_value;
+    if (w->time_script_n > 0) v = w->time_script[w->time_reads < w->time_script_n ? w->time_reads : w->time_script_n - 1];
+    if (w->time_reads < 8) w->time_seen[w->time_reads] = v;
+    w->time_reads++;
+    if (e) e->a = v;
     STUB_LEAVE;
     return v;
 }
@@ -257,7 +260,7 @@ void pv_inject_default(void) {
 }
 void pv_world_begin(const char* api) {
     pv_world* w = pv_w;
-    w->nev = 0; w->nkdf = 0; w->ev_overflow = 0; w->rand_total = 0; w->alloc_failed_in_call = 0;
+    w->nev = 0; w->nkdf = 0; w->ev_overflow = 0; w->rand_total = 0; w->alloc_failed_in_call = 0; w->time_reads = 0;
     memset(w->count, 0, sizeof w->count);
     w->call_id++;
     if (pv_cur.api == NULL && strcmp(api, "polyseed_decode") && strcmp(api, "polyseed_decode_explicit") && strcmp(api, "polyseed_load") && strcmp(api, "polyseed_crypt")) pv_cur.in_ptr = NULL;
